@@ -158,8 +158,9 @@ func cacheJSON(m map[int][]string) []any {
 }
 
 func runEvictHistory(tr *Trace, run int, pol string, r *rand.Rand, length int, tot map[string]int, samples *[]any) {
-	// every entry of this driver costs 24 + 16 + len(key) + 16 + len(value) = 60 + len(value) bytes (2-byte keys)
-	limit := uint64(pick(r, []int64{200, 260, 330, 400}))
+	// every string entry of this driver costs 58 + len(value) bytes (2-byte keys): 59, 68 or 88
+	// more than half of the limits are exact sums of entry sizes (59, 68, 88), so that usage also lands exactly ON the limit
+	limit := uint64(pick(r, []int64{200, 260, 330, 400, 195, 204, 215, 235, 264, 272}))
 	srv, err := NewSrv(SrvOpts{Policy: pol, MaxMemory: limit, EvictInterval: time.Hour})
 	if err != nil {
 		die(2, "%v", err)
@@ -178,8 +179,12 @@ func runEvictHistory(tr *Trace, run int, pol string, r *rand.Rand, length int, t
 		switch x := r.Intn(100); {
 		case x < 45:
 			cmd = []Tok{S("SET"), k, B(pick(r, vals))}
-			if r.Intn(3) == 0 {
+			switch r.Intn(6) {
+			case 0, 1:
 				cmd = append(cmd, S("EX"), I(1000))
+			case 2:
+				// a deadline that the clock steps over (below): the entry lingers, expired, until something overwrites it
+				cmd = append(cmd, S("PX"), I(40))
 			}
 		case x < 65:
 			cmd = []Tok{S("GET"), k}
@@ -197,6 +202,9 @@ func runEvictHistory(tr *Trace, run int, pol string, r *rand.Rand, length int, t
 			cmd = []Tok{S("FLUSHDB")}
 		default:
 			cmd = []Tok{S("RPUSH"), k, B("e")}
+		}
+		if r.Intn(8) == 0 {
+			srv.Clock.AdvanceMs(100)
 		}
 		time.Sleep(3 * time.Millisecond) // recency stamps have millisecond resolution
 		rep := srv.Exec(cmd)
